@@ -154,3 +154,56 @@ def enumerate_programs(max_leaves, max_containers, min_leaves=0):
 
 def count(max_leaves, max_containers):
     return sum(1 for _ in enumerate_programs(max_leaves, max_containers))
+
+
+def render_free(items, reg="q"):
+    """Abstract forest -> program S-expression WITHOUT Jaqal's text nesting rules (for circuits assembled from
+    core objects): a subcircuit block may hold anything, blocks of one kind may nest.  None if the forest uses a
+    macro container (the object assembler has none)."""
+    def leaf(k):
+        if k == "P":
+            return ("gate", "prepare_all")
+        if k == "M":
+            return ("gate", "measure_all")
+        return ("gate", "X", ("array_item", reg, 0))
+
+    def seq_items(items):
+        out = []
+        for it in items:
+            if isinstance(it, str):
+                out.append(leaf(it))
+                continue
+            ck, inner = it
+            if ck == "macro":
+                raise Illegal("macro")
+            if ck == "seq":
+                out.append(("sequential_block",) + tuple(seq_items(inner)))
+            elif ck == "par1":
+                out.append(("parallel_block", ("sequential_block",) + tuple(seq_items(inner))))
+            elif ck.startswith("loop"):
+                out.append(("loop", int(ck[4:]), ("sequential_block",) + tuple(seq_items(inner))))
+            elif ck.startswith("ploop"):
+                out.append(("loop", int(ck[5:]), ("parallel_block", ("sequential_block",) + tuple(seq_items(inner)))))
+            elif ck == "sub":
+                out.append(("subcircuit_block", "") + tuple(seq_items(inner)))
+        return out
+
+    try:
+        return ("circuit", ("register", reg, 1)) + tuple(seq_items(items))
+    except Illegal:
+        return None
+
+
+def enumerate_object_programs(max_leaves, max_containers):
+    """Forests that the text cannot express (render() refuses them) but core objects can."""
+    for n in range(0, max_leaves + 1):
+        for b in range(1, max_containers + 1):
+            for f in forests(n, b):
+                try:
+                    render(f)
+                    continue
+                except Illegal:
+                    pass
+                p = render_free(f)
+                if p is not None:
+                    yield p
